@@ -26,7 +26,7 @@ func init() {
 
 func runC05(p *Prog, r *Report) {
 	c05R1(p, r)
-	c05R2(p, r)
+	c05R2(p, r, "C05.R2", []string{"builder.(*Struct).Assign", "builder.(*Enum).Build"})
 	c05R3(p, r)
 	c03R1(p, r, "C05.R4")
 	c05R5(p, r)
@@ -160,10 +160,13 @@ func enumRootFacts(p *Prog) string {
 	return ""
 }
 
-func c05R2(p *Prog, r *Report) {
-	r.Rule("C05.R2", "unused-setting detection: in Struct.Assign `delete(definedFields, targetField.Name())` is the unconditional head of the field loop (before any continue) and every success return is preceded by the left-over check; Enum.Build does the same for enum:map keys over all source members", 4)
+func c05R2(p *Prog, r *Report, id string, fns []string) {
+	r.Rule(id, "unused-setting detection: in Struct.Assign `delete(definedFields, targetField.Name())` is the unconditional head of the field loop (before any continue) and every success return is preceded by the left-over check; Enum.Build does the same for enum:map keys over all source members", 3)
 	type spec struct{ fn, set, from string }
 	for _, s := range []spec{{"builder.(*Struct).Assign", "definedFields", "DefinedFields"}, {"builder.(*Enum).Build", "definedKeys", "DefinedEnumFields"}} {
+		if !has(fns, s.fn) {
+			continue
+		}
 		fi, sf := needFunc(p, r, s.fn)
 		if fi == nil {
 			continue
